@@ -35,6 +35,8 @@ def cases(tier, seed):
     k = 0
     for kind in ('tstatic', 'tdpa'):
         for prec in ('float32', 'float64'):
+            out.append(dict(gen='tmpl', kind=kind, precision=prec, struct='singular', traces='int', sub=core.subseed('C14s', seed, kind, prec), must=True))
+            out.append(dict(gen='tmpl', kind=kind, precision=prec, struct='singleton', traces='int', rebuild=True, sub=core.subseed('C14r', seed, kind, prec), must=True))
             for struct in ('balanced', 'unbalanced', 'singleton'):
                 for traces in ('int', 'float'):
                     out.append(dict(gen='tmpl', kind=kind, precision=prec, struct=struct, traces=traces, sub=core.subseed('C14', seed, k), must=True))
@@ -64,6 +66,11 @@ def run_case(case):
     else:
         declared = [int(v) for v in (rng.permutation(K) if mode == 0 else (int(rng.integers(0, 200)) + rng.permutation(3 * K)[:K]) if mode == 1 else rng.choice(256, K, replace=False))]
     per = T + 5 + int(rng.integers(0, 10))
+    if struct == 'singular':
+        # fewer building traces than needed for a full-rank pooled covariance: the published inverse must still be the PSEUDO-inverse
+        T = int(rng.integers(4, 9))
+        per = 2
+        t.count('singular_covariance_cases')
     counts = np.full(K, per)
     if struct == 'unbalanced':
         counts = rng.integers(T + 3, 4 * per, K)
@@ -153,6 +160,11 @@ def run_case(case):
         CONTROL.force(att._build_analysis, list(kseq))
         scared.set_batch_size(build_bs)
         att.build()
+        if case.get('rebuild'):
+            # a second build() on the same object accumulates a second campaign (here: the same building set once more)
+            CONTROL.force(att._build_analysis, [int(v) for v in rng.integers(0, 2, nbatches)])
+            att.build()
+            t.count('second_build_calls')
         for c in CONTROL.choices_of(att._build_analysis):
             t.count(f'build_batches_kernel{c}')
         scared.set_batch_size(match_bs)
@@ -163,6 +175,10 @@ def run_case(case):
     templates = np.asarray(att.templates, dtype=float)
     pooled = np.asarray(att.pooled_covariance, dtype=float)
     scores = np.asarray(att.scores, dtype=float).ravel()
+    if case.get('rebuild'):
+        bsamples, bvalues = np.concatenate([bsamples, bsamples]), np.concatenate([bvalues, bvalues])
+        counts = counts * 2
+        nb = len(bvalues)
     m_or, p_or, small = oracles.template_build(bsamples.astype(float) if np.dtype(tdtype).kind == 'f' else bsamples, bvalues, declared)
     eps = float(np.finfo(prec).eps)
     t.check(templates.shape == (K, T), 'templates_shape', lambda: dict(info, got=templates.shape))
@@ -182,6 +198,14 @@ def run_case(case):
     t.check(pooled.shape == (T, T) and bool(np.all(np.abs(pooled - p_or) <= ptol)), 'pooled_covariance_differs',
             lambda: dict(info, got=pooled.tolist()[:2], expected=p_or.tolist()[:2], tol=ptol))
     cond = float(np.linalg.cond(p_or))
+    if struct == 'singular':
+        # (a') the published inverse is the Moore-Penrose pseudo-inverse of the published matrix (same default cut-off as numpy.linalg.pinv)
+        inv_obs = np.asarray(att.pooled_covariance_inv, dtype=float)
+        inv_ref = np.linalg.pinv(pooled)
+        t.count('pinv_compared')
+        t.check(inv_obs.shape == inv_ref.shape and bool(np.all(np.abs(inv_obs - inv_ref) <= 1e-6 * (np.abs(inv_ref).max() + 1e-300))), 'pooled_inverse_is_not_pinv',
+                lambda: dict(info, got_max=float(np.abs(inv_obs).max()), expected_max=float(np.abs(inv_ref).max()), rank=int(np.linalg.matrix_rank(pooled)), size=T))
+        return t.result(sig=f"{kind}|{prec}|singular|{K}|{T}|{tdtype}", sample=dict(info, judged='class means, pooled covariance, pseudo-inverse (singular covariance: scores not judged)'))
     if cond > (1e3 if prec == 'float32' else 1e6):
         t.count('undecidable_by_conditioning')
         return t.result(sig=f"{kind}|{prec}|{struct}|{K}|{T}|{tdtype}|{build_bs}|{n}", sample=dict(info, cond=cond))
@@ -237,6 +261,8 @@ def run_case(case):
             CONTROL.force(att2._build_analysis, list(kseq))
             scared.set_batch_size(build_bs)
             att2.build()
+            if case.get('rebuild'):
+                att2.build()
             scared.set_batch_size(match_bs)
             att2.run(scared.Container(mths))
         finally:
